@@ -556,6 +556,29 @@ func ruleDotFailAndPrune(rule string) RuleFn {
 				c.Und(rule, nm+" marks failures", "no store into an ErrorType field found")
 			}
 		}
+		// (round 14) a pruned result takes with it only the parameters filed under its whole key
+		if fn := c.Fn(rule, "(*dig/internal/dot.Ctor).removeParam"); fn != nil {
+			whole, partial := 0, 0
+			var at ssa.Instruction
+			an.Instrs(fn, func(in ssa.Instruction) {
+				iff, ok := in.(*ssa.If)
+				if !ok {
+					return
+				}
+				bo, ok := an.Resolve(iff.Cond).(*ssa.BinOp)
+				if !ok || (bo.Op != token.EQL && bo.Op != token.NEQ) {
+					return
+				}
+				isKey := func(v ssa.Value) bool { return an.IsNamed(v.Type(), an.ModPath+"/internal/dot", "nodeKey") }
+				if isKey(bo.X) && isKey(bo.Y) {
+					whole++
+				} else {
+					partial++
+				}
+				at = in
+			})
+			c.Check(whole > 0 && partial == 0, rule, "removeParam drops exactly the parameters with the pruned result's key", "parameters are compared by their whole nodeKey (type, name and group)", "removeParam decides by a part of the key: pruning a successful constructor of T[name=a] also removes a failed constructor's edge to T[name=b] - the picture of the failure loses the edge to its root cause", at, nil)
+		}
 		if fn := c.Fn(rule, "(*dig/internal/dot.Graph).pruneCtors"); fn != nil {
 			for _, callee := range []string{"(*dig/internal/dot.Graph).pruneCtorParams", "(*dig/internal/dot.Graph).pruneGroupResults"} {
 				ks := an.CallsNamed(fn, callee)
